@@ -57,6 +57,36 @@ type faultKV struct {
 	stoabs.KVStore
 	mu       sync.Mutex
 	failRead map[string]bool
+	// onHead is told when an actor reads the head reference (metadata/head_ref): the value it got
+	onHead func(actor string, value []byte)
+}
+
+// observing read transaction: sees which keys of the metadata shelf the code reads
+type obsReadTx struct {
+	stoabs.ReadTx
+	f     *faultKV
+	actor string
+}
+
+func (t obsReadTx) GetShelfReader(shelf string) stoabs.Reader {
+	r := t.ReadTx.GetShelfReader(shelf)
+	if shelf == "metadata" {
+		return obsReader{Reader: r, t: t}
+	}
+	return r
+}
+
+type obsReader struct {
+	stoabs.Reader
+	t obsReadTx
+}
+
+func (o obsReader) Get(key stoabs.Key) ([]byte, error) {
+	v, err := o.Reader.Get(key)
+	if string(key.Bytes()) == "head_ref" && o.t.f.onHead != nil {
+		o.t.f.onHead(o.t.actor, v)
+	}
+	return v, err
 }
 
 func (f *faultKV) arm(actor string) {
@@ -74,6 +104,7 @@ func (f *faultKV) Read(ctx context.Context, fn func(stoabs.ReadTx) error) error 
 		if hit {
 			return errInjectedRead
 		}
+		return f.KVStore.Read(ctx, func(tx stoabs.ReadTx) error { return fn(obsReadTx{ReadTx: tx, f: f, actor: a}) })
 	}
 	return f.KVStore.Read(ctx, fn)
 }
@@ -297,6 +328,8 @@ type world struct {
 	outsider did.DID
 	other    crypto.PublicKey // a key that signs nothing
 	seq      int
+	// confirmedBlocked counts the scripts in which "blocked inside the code" was confirmed with the long wait
+	confirmedBlocked int
 }
 
 const (
@@ -412,7 +445,7 @@ func (w *world) openNode(r *run, dir string, nodeDID bool) (*node, error) {
 		return nil, err
 	}
 	n := &node{inner: inner, js: newFakeJS(), peers: map[string]*capConn{}}
-	n.fault = &faultKV{KVStore: inner, failRead: map[string]bool{}}
+	n.fault = &faultKV{KVStore: inner, failRead: map[string]bool{}, onHead: r.onHeadRead}
 	n.g = kvgate.Wrap(n.fault, r.sched)
 	n.g.Obs = r.observe
 	n.g.InTx = r.inTx
